@@ -4,7 +4,7 @@ import re
 from ..core import ok, viol, skip, COUNTERS, short_exc
 from ..gen import prog as G
 from ..ref import worlds
-from .. import sut, judge, instrument
+from .. import sut, judge, instrument, sanitize
 
 ID = "C23"
 LEVEL = "exploration"
@@ -18,8 +18,9 @@ RULE = ("case = generated evidence-free program (probabilistic facts incl. dupli
 ASSUMPTIONS = ["the bundled maxsatz binary is the solver (the only one available offline)", "tolerance 1e-9 on bounds, 1e-6 on printed proof sums"]
 LEVEL_TEXT = ("Every bound the real k-best evaluator passes through, not only the final one, is compared with exact possible-world "
               "enumeration; explanations are parsed and summed per query.")
-LEVEL_NOTE = "Trusts pbmon/ref/worlds.py; maxsatz itself is exercised as a black box."
-TECHNIQUE = "runtime monitor on Border.update (anytime bounds) + reference-model oracle + explanation parser"
+LEVEL_NOTE = ("Trusts pbmon/ref/worlds.py. Auxiliary: every maxsatz call runs an ASan+UBSan build of the bundled solver source; any "
+              "sanitizer report is a violation (none on the unchanged tree).")
+TECHNIQUE = "runtime monitor on Border.update (anytime bounds) + reference-model oracle + explanation parser + ASan/UBSan maxsatz"
 BUDGET = {"quick": 400, "thorough": 5000}
 TIME_BUDGET = {"quick": 220, "thorough": 3300}
 CASE_TIMEOUT = 60
@@ -33,7 +34,16 @@ class UpdateBudget(BaseException):
     pass
 
 
+def prepare(scratch, env, tier):
+    sanitize.prepare(scratch, env)
+
+
+def collect(scratch, recs, counters):
+    sanitize.collect(scratch, recs, counters)
+
+
 def setup_worker(tier):
+    sanitize.worker_probe(COUNTERS)
     from problog import kbest
     instrument.reach_install({"kbest.py": ["Border.update", "KBestEvaluator.evaluate"], "maxsat.py": ["MaxSATSolver.evaluate"],
                               "cnf_formula.py": ["CNF.from_partial"]})
